@@ -86,7 +86,7 @@ def accept_queue_rules(run):
     caq = fx.fn1(A + '::check_accept_queue')
     run.touch(caq)
     # the hand-out is reached whenever a handler is pending and the queue is non-empty (and the acceptor is open)
-    pops = [c for c in caq.calls() if (c.get('callee') or '').endswith('::erase') and q.render(caq, c.get('obj')) == 'm_incoming_conns']
+    pops = [c for op, c in q.container_calls(caq, 'm_incoming_conns') if op in ('pop_front', 'erase')]
     okc = bool(pops)
     extra = []
     for c in pops:
